@@ -1718,6 +1718,11 @@ namespace awkward {
       if (head.get()->preserves_type(advanced)) {
         parameters = parameters_;
       }
+      if (contents.empty()) {
+        // no field carries the length: a record without fields keeps its own
+        RecordArray out(Identities::none(), parameters, contents, recordlookup_, length());
+        return out.getitem_next(nexthead, nexttail, advanced);
+      }
       RecordArray out(Identities::none(), parameters, contents, recordlookup_);
       return out.getitem_next(nexthead, nexttail, advanced);
     }
